@@ -697,7 +697,16 @@ impl FsRun<'_> {
         let c = self.model.calls[ci].clone();
         let (text, args) = self.call_text(&c);
         let name = format!("std.fs.{}", c["f"].as_str().unwrap());
-        let out = if route == 0 {
+        // route 2: the function reached through a NAME bound to it and called inside a function literal with literal
+        // arguments (`al := std.fs.f; g := () -> any { return al(..) }; g()'); the program is parsed once and run
+        // again at every later state of the walk — the call happens when g is called, not when it is made or parsed
+        let text = if route == 2 {
+            let (fname, rest) = text.split_once('(').unwrap();
+            format!("al := {fname}; g := () -> any {{ return al({rest} }}; g()")
+        } else { text };
+        let key = ci + if route == 2 { 1_000_000 } else { 0 };
+        let ci = key;
+        let out = if route == 0 || route == 2 {
             if !self.progs.contains_key(&ci) {
                 match catch(|| Code::parse(&self.lib.interp, &text)) {
                     Ok(Ok(code)) => { self.progs.insert(ci, code); }
@@ -726,7 +735,7 @@ impl FsRun<'_> {
         let key = format!("{name} {}", out);
         if self.results.len() < 4000 && !self.results.contains_key(&key) {
             self.results.insert(key, json!({"ev": "call", "id": format!("fs{}", self.results.len()), "name": name,
-                "route": if route == 0 { "prog" } else { "host" }, "args": args, "out": out, "text": text}));
+                "route": if route == 0 { "prog" } else if route == 2 { "alias-in-function" } else { "host" }, "args": args, "out": out, "text": text}));
         }
         out
     }
@@ -756,7 +765,7 @@ impl FsRun<'_> {
             self.mm.push(if class != expected_class { "fs_result" } else { "fs_state" }, json!({
                 "initial_tree": model.inits[ini]["s"], "calls": calls_txt, "failing_step": step + 1,
                 "f": model.calls[ci]["f"], "p": model.calls[ci]["p"], "q": model.calls[ci]["q"],
-                "route": if route == 0 { "prog" } else { "host" },
+                "route": if route == 0 { "prog" } else if route == 2 { "alias-in-function" } else { "host" },
                 "tree_before": state, "expected": {"ok": ok, "returns": expected_class, "tree": after},
                 "observed": {"returns": class, "raw": out, "tree": tree}}));
             return false;
@@ -779,7 +788,7 @@ impl FsRun<'_> {
         for step in 0..seq.len() {
             let Some(trans) = model.next.get(&state.to_string()) else { panic!("harness: tree not in the emitted graph: {state}") };
             let (ok, ret, after) = trans[seq[step]].clone();
-            let route = (self.counter + step as u64) % 2;
+            let route = (self.counter + step as u64) % 3;
             if !self.step(ini, seq, step, &state, ok, &ret, &after, route) {
                 return false;
             }
@@ -801,7 +810,7 @@ impl FsRun<'_> {
             let (ok, ret, after) = &trans[ci];
             self.counter += 1;
             self.behaviours += 1;
-            let route = self.counter % 2;
+            let route = self.counter % 3;
             let agreed = self.step(ini, prefix, prefix.len() - 1, state, *ok, ret, after, route);
             if agreed {
                 if any_ok || *ok {
